@@ -231,6 +231,13 @@ def check_case(case):
         except Exception as e:
             res.v(("C07.solve-exception", type(e).__name__), "%s order %s" % (e, o))
             continue
+        if case.get("rephase") and spec.get("phases"):
+            # "after any edit history": the durations are changed after a first analysis; the aggregates must follow the NEW durations
+            newph = {k: v * m for (k, v), m in zip(spec["phases"].items(), (3.0, 0.5, 2.0))}
+            s.set_sys_phases(dict(newph))
+            spec = dict(spec, phases=newph)
+            df, _ = quiet_call(s.solve, energy=case["energy"])
+            res.stats["transitions"] += 2
         obs = observe(df)
         res.stats["traces"] += 1
         res.stats["orders"] += 1
@@ -264,6 +271,8 @@ def gen_cases(tier):
         for volts in pats:
             for phased, en in ((False, False), (True, True)) if tier == "quick" else ((False, False), (False, True), (True, False), (True, True)):
                 yield dict(struct={k: [v[0], list(v[1])] for k, v in st.items()}, pal=pal, volts=list(volts), phased=phased, energy=en)
+            if len(st) <= 5:  # phase durations edited between two analyses
+                yield dict(struct={k: [v[0], list(v[1])] for k, v in st.items()}, pal=pal, volts=list(volts), phased=True, energy=True, rephase=True)
             if "M" in st and len(st) <= 6:  # negative rails through the mux
                 yield dict(struct={k: [v[0], list(v[1])] for k, v in st.items()}, pal=pal, volts=list(volts), phased=False, energy=False, pol=-1)
 
@@ -282,7 +291,7 @@ def main(tier):
     return run.finish(
         rule="E1-order: two-source structures with a 2-input PMux (chains of 0..2 / 0..1 series elements, optional side load, every ordered pair of "
              "distinct attachment points as mux inputs), two- and three-source forests without mux, one single-source system; x live/0 V source patterns x "
-             "(no phases | 2 phases with an inactive source and per-phase loads) x energy flag; EVERY linear extension (construction order) is built. "
+             "(no phases | 2 phases with an inactive source and per-phase loads) x energy flag; EVERY linear extension (construction order) is built; small structures additionally with negative rails and with the phase durations edited between two analyses. "
              "states = structures x patterns, traces = tables checked (one per construction order). non-trivial = >=2 orders and >=2 subsystems with non-zero loss.",
         states=run.cases, traces=run.stats["orders"],
         assumptions=["small alphabet (RLoss, Converter, ILoad, PLoad-as-loss, PMux)", "<=6 non-source nodes", "one palette per run"])
